@@ -223,6 +223,8 @@ func (e *env) sendH2(rs reqShape, host string, trailer [][2]string) (uint32, boo
 			ok = e.h2.Data(id, b[:n], n, -1, n == len(b))
 			b = b[n:]
 		}
+	case "d16383": // frames that end one byte before the server's 16 KiB buffer-chunk boundary
+		ok = e.h2.Data(id, rs.body, 16383, -1, true)
 	case "pad1":
 		ok = e.h2.Data(id, rs.body, 0, 1, true)
 	case "pad255":
@@ -447,7 +449,7 @@ func TestCheck(t *testing.T) {
 	methods := []string{"GET", "HEAD", "POST", "PUT", "PATCH", "DELETE", "OPTIONS"}
 	targets := []string{"/", "/a/b", "/a%2Fb", "/x?y=1&y=2&z=", "/?", "/p%20q?a=b%26c"}
 	h1fr := []string{"cl", "dribble", "chunk1", "chunk7", "chunk4096", "chunk-trailers"}
-	h2fr := []string{"d16384", "d1", "dmixed", "pad1", "pad255", "emptyend", "trailers", "nocl"}
+	h2fr := []string{"d16384", "d1", "dmixed", "d16383", "pad1", "pad255", "emptyend", "trailers", "nocl"}
 	hss := hdrSets()
 	type job func()
 	var jobs []job
